@@ -197,6 +197,14 @@ func TestC15(t *testing.T) {
 				tab = hx.Table{Cols: []hx.Col{hx.FillCol(&seed, "s1", hx.KString, 700, 50, nil), hx.FillCol(&seed, "i1", hx.KInt, 700, 1000, nil)}}
 			}
 			d := hx.GenDerived(t, tab, 2)
+			if rapid.IntRange(0, 9).Draw(t, "columnless") == 0 {
+				// a frame with rows but without columns (what Aggregate without keys and aggregations returns): whatever
+				// little the writers put out for it, it has to reach the writer
+				if cl := d.QF.GroupBy().Aggregate(); cl.Err == nil && cl.Len() > 0 && len(cl.ColumnNames()) == 0 {
+					d.QF = cl
+					d.Route = append(d.Route, "GroupBy().Aggregate(): rows without columns")
+				}
+			}
 			write := func(w *faults.FailWriter) error {
 				if kind == "tocsv" {
 					return d.QF.ToCSV(w)
